@@ -106,6 +106,22 @@ func PrintableBytes(data []byte) bool {
 }
 
 func BytesFromBuffer(r io.Reader, length int) ([]byte, error) {
+	if length < 0 {
+		return nil, fmt.Errorf("[BytesFromBuffer] invalid length (%d)", length)
+	}
+
+	// NB do not allocate 'length' bytes before knowing that they are available: the length
+	//    usually comes from untrusted data (e.g. a 4-byte TLV length field), and a few input
+	//    bytes must not be able to trigger a multi-gigabyte allocation
+	if sized, ok := r.(interface{ Len() int }); ok && sized.Len() < length {
+		act := sized.Len()
+		eofErr := io.ErrUnexpectedEOF
+		if act == 0 {
+			eofErr = io.EOF
+		}
+		return nil, fmt.Errorf("[BytesFromBuffer] Req:%d, Act:%d: %w", length, act, eofErr)
+	}
+
 	tmp := make([]byte, length)
 
 	n, err := io.ReadFull(r, tmp)
